@@ -561,6 +561,27 @@ struct Extractor {
       F["targs"] = std::move(Args);
     }
 
+    // lexical try regions with their handler types (for exception-escape rules)
+    {
+      struct TryV : RecursiveASTVisitor<TryV> {
+        Extractor &X;
+        json::Array Out;
+        TryV(Extractor &X) : X(X) {}
+        bool VisitCXXTryStmt(CXXTryStmt *T) {
+          json::Array Cs;
+          for (unsigned I = 0; I < T->getNumHandlers(); ++I) {
+            CXXCatchStmt *H = T->getHandler(I);
+            Cs.push_back(H->getExceptionDecl() ? X.ty(H->getCaughtType()) : std::string("..."));
+          }
+          Out.push_back(json::Object{{"from", X.lineOf(T->getTryBlock()->getBeginLoc())}, {"to", X.lineOf(T->getTryBlock()->getEndLoc())}, {"catches", std::move(Cs)}});
+          return true;
+        }
+        bool TraverseLambdaExpr(LambdaExpr *) { return true; }  // lambdas are separate functions
+      } TV(*this);
+      TV.TraverseStmt(FD->getBody());
+      if (!TV.Out.empty()) F["trys"] = std::move(TV.Out);
+    }
+
     // CFG
     CFG::BuildOptions BO;
     BO.AddInitializers = true;
